@@ -1029,6 +1029,9 @@ func (s *sharedEntryAttributes) validatePattern(resultChan chan<- *types.Validat
 			return
 		}
 		lv := s.leafVariants.GetHighestPrecedence(false, true)
+		if lv == nil {
+			return
+		}
 		tv, err := lv.Update.Value()
 		if err != nil {
 			resultChan <- types.NewValidationResultEntry(lv.Owner(), fmt.Errorf("failed reading value from %s LeafVariant %v: %w", s.Path(), lv, err), types.ValidationResultEntryTypeError)
